@@ -74,6 +74,8 @@ def roundtrip(x, p):
         n = p['ncode']
         s = x.bytes('code', n)
         nl = b'\r\n' if p.get('crlf') else b'\n'
+        if p.get('eol') == 'cr':
+            nl = b'\r'      # old Mac line ends: the last line ends in a bare CR
         if kind == 'comment':
             code = [b'--' + s + nl, b'y=2' + (nl if p.get('final_nl', True)
                                               else b'')]
@@ -214,7 +216,9 @@ HARNESSES = [
                    dict(Q, code='ident', ncode=1, maxver=8),
                    dict(Q, code='dunder', ncode=1, maxver=8),
                    dict(Q, code='comment', ncode=1, crlf=True,
-                        final_nl=False, maxver=8)],
+                        final_nl=False, maxver=8),
+                   dict(Q, code='comment', ncode=1, eol='cr', maxver=8),
+                   dict(Q, code='ident', ncode=1, eol='cr', maxver=8)],
             thorough=[dict(Q, code=c, ncode=2, maxver=8, _budget=1800)
                       for c in ('comment', 'string', 'ident')] +
                      [dict(Q, code='comment', ncode=2, crlf=True,
